@@ -42,12 +42,14 @@ func (x *Ctx) P(name string, d int) int {
 func (x *Ctx) AtEnd(f func(x *Ctx)) { x.finish = append(x.finish, f) }
 
 type Scenario struct {
-	Name     string
-	Prop     string
-	Also     []string // further properties this scenario also decides a clause of
-	Doc      string
-	Body     func(x *Ctx)
-	Fine     bool // baselibrary primitives become decision points
+	Name string
+	Prop string
+	Also []string // further properties this scenario also decides a clause of
+	Doc  string
+	Body func(x *Ctx)
+	Fine bool // baselibrary primitives become decision points
+	// Boundary: calls into the baselibrary primitives are scheduling points at their entry (their inside stays atomic)
+	Boundary bool
 	MaxSteps int
 	// AllowDeadlock: a deadlock is reported through x (the scenario's own oracle decides), not as a generic finding
 	AllowDeadlock bool
@@ -138,6 +140,7 @@ func RunPolicy(sc *Scenario, params map[string]int, prefix []int, policy func(i 
 		MaxSteps: sc.MaxSteps,
 		Trace:    trace,
 		Fine:     sc.Fine || forceFine,
+		Boundary: sc.Boundary,
 		Debug:    debugIDs,
 	}
 	var s *vsched.Sched
